@@ -114,7 +114,18 @@ def dispatch_cases(draw, sh):
                [draw(requests(P.PY_MODES)) for _ in range(n_py)]
         if draw(st.integers(0, 3)) == 0:
             reqs.append(draw(requests(P.SH_MODES)))
-        reqs = draw(st.permutations(reqs))
+        reqs = list(draw(st.permutations(reqs)))
+        if draw(st.booleans()):
+            # construct it: a process/shell request with an environment of its own, then another
+            # one which looks at the same variable without setting it
+            k, v = draw(KEY), draw(ENVVAL)
+            first  = draw(requests(P.SH_MODES))
+            second = draw(requests(P.SH_MODES))
+            first['env'] = dict(first['env'], **{k: v or 'x'})
+            second['env'] = {kk: vv for kk, vv in second['env'].items() if kk != k}
+            second['prog'] = [['getenv', k]] + [o for o in second['prog']
+                                                if not (o[0] in ('setenv', 'delenv') and o[1] == k)]
+            reqs += [first, second]
     else:
         reqs = draw(st.lists(requests(P.PY_MODES), min_size=1, max_size=3))
     return {'kind': 'dispatch', 'reqs': list(reqs)}
@@ -192,7 +203,7 @@ def sched_cases(draw):
 # ------------------------------------------------------------------------------
 def parts(tier):
     return [Part('dispatch_py', dispatch_cases(False), quick=600, thorough=3000),
-            Part('dispatch_sh', dispatch_cases(True),  quick=110, thorough=400),
+            Part('dispatch_sh', dispatch_cases(True),  quick=140, thorough=500),
             Part('worker_streams', worker_cases(),     quick=600, thorough=3000),
             Part('master_streams', master_cases(),     quick=400, thorough=2500),
             Part('sched_forwarding', sched_cases(),    quick=300, thorough=2000)]
